@@ -47,7 +47,7 @@ MANIFEST = {
             "c20_scan_check_complete: the per-pair provenance / per-key completeness checker for Range, ToArray, ForEach and the "
             "point observers (ScanCheck.scan_check, no snapshot demanded of a scan) accepts every history that has a sequential "
             "witness, and is evaluated on timed histories (tickets around every operation) of scanners running against "
-            "goroutines that store and delete the same few keys",
+            "goroutines that store and delete the same few keys; containers obtained in every legal construction (zero values too) with their first operations concurrent; the library's own logger at printing levels under the race detector and a log stream whose concurrent output must be an interleaving of whole lines (Model/Merge.v, c20_log_output_is_interleaving); for the step model's Range under every interleaving c20_range_provenance / c20_range_completeness, and Model/ScanCheck.v scan_check (c20_scan_check_complete) on timed scan histories of the real containers",
     "design_ref": "DESIGN.md 5 C20",
     "note": "modelled, not verified: Go scheduler, sync.WaitGroup, sync.Mutex, atomicity of sync.Map primitives, Go memory "
             "model happens-before, callee code below the closures (validated dynamically by the race detector)",
